@@ -164,11 +164,16 @@ class MacroProcessor:
         Macro call syntax: ${name} or ${name arg1 arg2 ...}
         """
         max_iterations = 100  # Prevent infinite loops
+        # A macro that (directly or indirectly) expands to several copies of itself grows
+        # exponentially; stop long before that can exhaust time and memory
+        max_size = max(1_000_000, 50 * len(content))
         iteration = 0
 
         while "${" in content and iteration < max_iterations:
             iteration += 1
             content = self._expand_once(content)
+            if len(content) > max_size:
+                raise ValueError("Macro expansion exceeds the size limit (recursive macro definition?)")
 
         return content
 
